@@ -216,8 +216,8 @@ def render_record(rec: dict, *, mode: str = "sync") -> tuple[dict, dict]:
     args, matter, tglobals, eglobals = layers[:4]
     before = copy.deepcopy(layers)
     main = conc(rec["main"])
-    partials = {k: v for k, v in templates.items() if k != main}
-    env = make_env(cfg, loader=DictLoader(partials), env_globals=eglobals)
+    # the loader holds every template, main included (a chain may lead back to it)
+    env = make_env(cfg, loader=DictLoader(dict(templates)), env_globals=eglobals)
 
     def run():
         t = env.from_string(templates[main], name=main, globals=tglobals or None,
